@@ -270,6 +270,25 @@ def _num(v):
     return v
 
 
+def any_bracket(t):
+    if isinstance(t, list):
+        return any(any_bracket(x) for x in t)
+    if not isinstance(t, dict):
+        return False
+    return t.get("t") == "bracket" or any(any_bracket(v_) for v_ in t.values())
+
+
+def unbracket(t):
+    """The tree without explicit Bracket nodes (parentheses are grouping, not structure)."""
+    if isinstance(t, list):
+        return [unbracket(x) for x in t]
+    if not isinstance(t, dict):
+        return t
+    if t.get("t") == "bracket":
+        return unbracket(t["a"])
+    return {k_: unbracket(v_) for k_, v_ in t.items()}
+
+
 def norm(t):
     """Canonical form that flattens only what cannot change a value (see DESIGN C06)."""
     k = t["t"]
@@ -286,6 +305,8 @@ def norm(t):
         return (k, str(t.get("n") or t.get("v")))
     if k == "neg":
         return ("neg", norm(t["a"]))
+    if k == "bracket":  # (explicit parentheses: transparent in the normal form, they only have to survive as grouping)
+        return norm(t["a"])
     if k == "not":
         a = norm(t["a"])
         return ("not", a)
